@@ -145,7 +145,9 @@ def main():
         f.write("# Seeded property-breaking changes: verification and detection\n\n")
         f.write("Produced by independent sub-agents that saw only the property text and a scratch worktree (nothing from /verif).\n")
         f.write("`verified` = patch applies, existing suite passes with it, demonstration fails with it and passes without it (checked in a scratch worktree).\n")
-        f.write("`detected` = the owning check's quick command exits 1 with a VIOLATION line on two consecutive runs with the patch applied to /repo (undone afterwards).\n\n")
+        f.write("`detected` = the owning check's quick command exits 1 with a VIOLATION line on two consecutive runs with the patch applied to /repo (undone afterwards); this column was recomputed for all changes with the final harness.\n")
+        f.write("`other checks` comes from the last pass in which all 18 checks were run against the change (rounds a-d: an earlier harness; rounds e-i: owning check only, column empty).\n")
+        f.write("Rounds: a-c sub-agents saw only the property; d-i were also told the earlier changes and a description of the checker's generators (prompts: PROMPT-round*.txt).\n\n")
         f.write("| change | property | what it does | verified | detected by owning check | other checks that also fire | first violation printed |\n|---|---|---|---|---|---|---|\n")
         f.write("\n".join(rows) + "\n")
     print(open(f"{SEEDED}/RESULTS.md").read())
